@@ -14,6 +14,7 @@ package vrf
 //@   property C16
 //@   ensures [delegates] result0 == @vrf_accept(old(bytes(pk)), old(bytes(pi)), old(bytes(m)))
 //@   ensures [err]       (result1 == nil) == @vrf_decodable(old(bytes(pi)))
+//@   modifies nothing
 
 // The lottery output is the first 32 bytes (gamma) of the 80-byte proof.
 //@ func VRFProof2Hash
